@@ -22,6 +22,9 @@ type Dumper struct {
 	Relative bool
 	// Skip(structTypeName, fieldName) drops a field from the dump.
 	Skip func(typ, field string) bool
+	// EpochSeconds(structTypeName, fieldName) marks an integer field that holds
+	// absolute Unix seconds; with Relative it is rendered as an offset from Now.
+	EpochSeconds func(typ, field string) bool
 }
 
 var timeType = reflect.TypeOf(time.Time{})
@@ -131,6 +134,10 @@ func (d *Dumper) dump(sb *strings.Builder, v reflect.Value, seen map[unsafe.Poin
 			}
 			sb.WriteString(f.Name + ":")
 			fv := v.Field(i)
+			if d.Relative && d.EpochSeconds != nil && fv.Kind() == reflect.Int && d.EpochSeconds(t.Name(), f.Name) {
+				fmt.Fprintf(sb, "E%+d,", fv.Int()-d.Now.Unix())
+				continue
+			}
 			fv = reflect.NewAt(fv.Type(), unsafe.Pointer(fv.UnsafeAddr())).Elem()
 			d.dump(sb, fv, seen, depth+1)
 			sb.WriteString(",")
